@@ -276,6 +276,19 @@ def run(E: Engine, rep: Report, tier: str) -> dict:
                       f"BlackmanWaveform.from_max_val lengthens the window under `{_shC(x, 100)}`: a window whose peak EQUALS max_val does not surpass it, so from_max_val(10, 0.84) returns 202 ns (peak 9.95) although 201 ns (peak exactly 10) fits -- the result is no longer as close to max_val as whole nanoseconds allow", E.where(bf, l.node))
     if n_step == 0:
         rep.excepted("GUARD", "BlackmanWaveform.from_max_val|lengthened-only-while-max_val-is-surpassed", "no loop lengthening the window under a comparison of _scaling with max_val was recognised: not decided", E.where(bf))
+    # (a'') InterpolatedWaveform._samples rounds to a number of decimals derived from log10(value range): for an all-zero
+    #       waveform that is +inf, which only min(..., 9) absorbs -- the bound is applied BEFORE the conversion to int
+    isf = next((g for g in E.P.all_functions() if g.cls is not None and g.cls.name == "InterpolatedWaveform" and g.name == "_samples"), None)
+    if isf is not None:
+        ints = [t for l in _SK(E, isf, inline=False).log for v_ in (l.value,) if v_ is not None for t in _symC.subterms(v_) if t[0] == "call" and t[1] == ("name", "int") and len(t[2]) == 1 and _mentC(t[2][0], "log10")]
+        seen_i = set()
+        for t in ints:
+            if t in seen_i:
+                continue
+            seen_i.add(t)
+            a_ = _unK(t[2][0])
+            rep.check(a_[0] == "call" and a_[1] == ("name", "min"), "DIV0", "InterpolatedWaveform._samples|decimals-bounded-before-int", "int(min(precision - log10(range), 9))",
+                      f"`{_shC(t, 100)}` converts precision - log10(value_range) to int before it is bounded: for an identically zero waveform (wf * 0, InterpolatedWaveform(d, [0, 0])) log10(0) is -inf and int(inf) raises OverflowError, so the waveform has no samples at all", E.where(isf))
     # (b) the stored phase lies in [0, 2pi): `x % 2pi` of a tiny negative x rounds to 2pi itself, so the modulo is applied
     #     twice (or the result is otherwise brought below 2pi)
     pi_f = E.fn("pulser.pulse.Pulse.__init__")
